@@ -35,7 +35,7 @@ theorem attrsRel_sort {cmp : TextCmp} {A B : Attrs} (hB : keysNodup B) :
 /-! ### `compareValue cmp` is `CValue.rel cmp` on the canonical values -/
 
 theorem compareAttributes_eq_rel {cmp : TextCmp} {va vb : Value} {ka kb : List Tree}
-    (oa : kidsOrdered ka = true) (ob : kidsOrdered kb = true) (nb : attrNamesNodup kb = true) :
+    (oa : orderedKids ka = true) (ob : orderedKids kb = true) (nb : attrNamesNodup kb = true) :
     compareAttributes cmp (.node va ka) (.node vb kb) =
       attrsRel cmp (sortAttrs (attrPairs ka)) (sortAttrs (attrPairs kb)) := by
   have nb' : keysNodup (attrPairs kb) := by simpa [attrNamesNodup, keysNodup] using nb
@@ -50,7 +50,7 @@ theorem compareAttributes_eq_rel {cmp : TextCmp} {va vb : Value} {ka kb : List T
     simp [this, hlen]
 
 theorem compareValue_eq_rel {cmp : TextCmp} {a b : Tree}
-    (oa : kidsOrdered a.kids = true) (ob : kidsOrdered b.kids = true) (nb : attrNamesNodup b.kids = true) :
+    (oa : orderedKids a.kids = true) (ob : orderedKids b.kids = true) (nb : attrNamesNodup b.kids = true) :
     compareValue cmp a b = CValue.rel cmp (cvalue a.value a.kids) (cvalue b.value b.kids) := by
   obtain ⟨va, ka⟩ := a
   obtain ⟨vb, kb⟩ := b
@@ -109,7 +109,7 @@ theorem validForList_iff (g : Value → Bool) (ks : List Tree) :
   | cons k ks ih => simp [Tree.validFor.validForList, ih]
 
 theorem validFor_node {g : Value → Bool} {v : Value} {ks : List Tree} (h : (Tree.node v ks).validFor g = true) :
-    kidsOrdered ks = true ∧ attrNamesNodup ks = true ∧ (keptBy g (.node v ks) = true ∨ ks = []) ∧
+    orderedKids ks = true ∧ attrNamesNodup ks = true ∧ (keptBy g (.node v ks) = true ∨ ks = []) ∧
       ∀ k ∈ ks, k.validFor g = true := by
   simp only [Tree.validFor, Bool.and_eq_true, Bool.or_eq_true, List.isEmpty_iff, validForList_iff] at h
   exact ⟨h.1.1.1, h.1.1.2, by simpa [keptBy, Tree.value] using h.1.2, h.2⟩
